@@ -148,6 +148,9 @@ static void sets(int n, std::vector<Str> &srcs, std::vector<Str> &bases) {
     for (auto seg : { "x_y:z", "%3A:b", "k=v:w", "a@b:c", "item-17", "item-18", "2023", "2024" }) for (auto pre : { "s://h/", "s://h/a/", "s://h/item-17/", "s:/a/", "s:/", "s:a/", "s:" }) {
         Str s1 = Str(pre) + seg; if (!ref::is_uri_reference(s1)) continue; if (seen_s.insert(s1).second) srcs.push_back(s1); Str s2 = s1 + "/x?q"; if (seen_s.insert(s2).second) srcs.push_back(s2);
         if (seen_b.insert(s1).second) bases.push_back(s1); }
+    // schemes that differ in case only, that extend one another, or that hold every kind of scheme character: "share the scheme" means the same text
+    for (auto sc : { "S", "sx", "s+", "s1", "s.", "http", "HTTP", "Http", "httP" }) for (auto body : { "://h/a/b", ":/a/b", ":a/b", "://h/a/c?q", ":" }) {
+        Str t = Str(sc) + body; if (!ref::is_uri_reference(t)) continue; if (seen_s.insert(t).second) srcs.push_back(t); if (seen_b.insert(t).second) bases.push_back(t); }
     for (auto s : { "a", "/a", "//h/a", "" }) { srcs.push_back(s); bases.push_back(s); }
 }
 
